@@ -6,15 +6,15 @@ PROPS = {}
 
 # stated bounds of the replay enumerators (used as bounded stand-in / bounded cross-check; never counted as proved)
 REPLAY_BOUNDS = {
-    'bdd': 'straight-line programs of RobddBuilder operations over 3 variables: all binary ops on all pairs of literals followed by cond/exists/neg/compose/semhash, x all 6 variable orders x both cache kinds (7776 programs), plus 3000 seeded random programs of 7-16 operations; truth tables by walking the nodes',
+    'bdd': 'straight-line programs of RobddBuilder operations over 3 variables: all binary ops on all pairs of literals followed by cond/exists/neg/compose/semhash, x all 6 variable orders x both cache kinds (7776 programs), plus 3000 seeded random programs of 7-16 operations incl. condition_model on 0-2 pairs and and_lst/or_lst of 0-3 diagrams, plus new_var on 7 orders of 1-3 variables x 2 polarities; truth tables by walking the nodes',
     'table': 'BackedRobinhoodTable with capacity 4 and 8: every sequence of <= 4 (cap 4) / <= 3 (cap 8) insertions with hashes in 0..2*cap followed by re-requesting each element, plus 200 seeded random sequences of 12 insertions',
     'lru': 'Lru<u32,u32> with initial capacity 2 or 4: 3000 seeded random insert/get sequences (up to 64 operations, up to 15 keys, colliding hashes, frequent overwrites, final read-back)',
     'ff': 'FiniteField over all 7 exported primes: 12 residues (0,1,2,3,P/2,P/2+1,P-2,P-1 and 4 seeded random) in all pairs (x3 third operands for the ternary laws), 9 operations/laws',
-    'lattice': 'RealSemiring on a 9-value grid (signed zeros, infinities), ExpectedUtility on an 8-pair grid incl. incomparable pairs, all triples; Boolean semiring exhaustively',
+    'lattice': 'RealSemiring on a 9-value grid (signed zeros, infinities), ExpectedUtility on an 8-pair grid incl. incomparable pairs, all triples; Boolean semiring exhaustively; RationalSemiring on the naturals 0..4 built from one()/zero() (all triples)',
     'dnnf': 'top-down compilation + conditioning: 6 CNFs over 3 variables x 6 orders x {diagram, negation} x 3 labels x 2 values, plus 400 seeded random CNFs over 4 variables',
-    'cnf': 'Cnf::eval / is_sat_partial on 7 clause lists (incl. empty list, empty clause, duplicate and complementary literals) x all total and one-hole partial assignments of 3 variables; 300 seeded random PartialModel set/unset sequences',
-    'order': 'VarOrder::new on every permutation of 0..4 variables, each extended 0-2 times with new_last',
-    'compile': 'compile_cnf / collapse_clauses on 8 fixed clause lists x 6 orders and 600 seeded random CNFs; compile_logical_expr / compile_plan on 600 seeded random expressions of depth <= 4 over 3 variables',
+    'cnf': 'Cnf::eval / is_sat_partial on 7 clause lists (incl. empty list, empty clause, duplicate and complementary literals) x all total and one-hole partial assignments of 3 variables; 300 seeded random PartialModel set/unset sequences; Cnf::condition on the 7 lists x 6 literals and 300 seeded random CNFs over 4 variables (all assignments); Cnf::wmc in FiniteField<1000000007> on the 7 lists x 2 weight vectors and 300 random CNFs/weights against the explicit sum',
+    'order': 'VarOrder::new on every permutation of 0..4 variables, each extended 0-2 times with new_last; linear_order / force_order / min_fill_order on 202 CNFs over 1-6 variables: bijection between labels and levels',
+    'compile': 'compile_cnf / collapse_clauses on 8 fixed clause lists x 6 orders and 600 seeded random CNFs; compile_logical_expr / compile_plan on 600 seeded random expressions of depth <= 4 over 3 variables; compile_cnf_with_assignments against compile-then-condition_model (same pointer) on 8 lists x 6 orders x 5 partial assignments and 600 random; BottomUpPlan::from_dtree(DTree::from_cnf) + compile_plan on 600 random CNFs; CompressionSddBuilder compile_cnf / compile_logical_expr / compile_plan under all 12 vtrees over 3 variables (8 fixed lists + 400 random CNFs and expressions) and 4 vtrees over 4 variables (100 random CNFs), evaluated by a structural walk of the SDD',
     'dtree': 'DTree::from_cnf + VTree::from_dtree on 500 seeded random CNFs over 2-5 variables (every variable occurs) with random elimination orders: leaves = clauses, vars = union of children, cutset formula, vtree leaves = CNF variables',
     'poly': 'Polynomial<FiniteField<U32_TINY>>: 403 pairs of polynomials with 0..33 coefficients (seeded random), + and * against the schoolbook definition',
 }
@@ -44,8 +44,9 @@ prop('C01',
                  'with ptr_sem the structural denotation of a diagram; proved function by function against callee contracts, for an arbitrary '
                  'order closure in Ite::new, any VarOrder satisfying wf, and any IteTable implementation (both shipped adapters are proved to implement the contract)',
      not_covered=[
-         'RobddBuilder::new_label / new_var: interior mutation of the order cannot be expressed through the RefCell stub; covered only by the composition of VarOrder::new_last (proved: old positions unchanged) with lemma_ordered_extend (proved)',
-         'condition_model / cond_model_h: loop over PartialModel::assignment_iter (iterator adapter chain); its body is `condition`, which is proved',
+         'RobddBuilder::new_label / new_var: interior mutation of the order cannot be expressed through the RefCell stub; covered only by the composition of VarOrder::new_last (proved: old positions unchanged) with lemma_ordered_extend (proved) [+ bounded check `bdd`: new_var on 7 orders]',
+         'condition_model / cond_model_h: loop over PartialModel::assignment_iter (iterator adapter chain); its body is `condition`, which is proved [+ bounded check `bdd`]',
+         'and_lst / or_lst (iterator fold over the proved and / or) [bounded check `bdd` only]',
          'RobddBuilder::new, VarOrder::linear_order (iterator chain)',
          '"a diagram keeps denoting the same function afterwards": by construction (ptr_sem depends only on immutable arena nodes; A-bump, A-unsafe), not a discharged obligation',
      ])
@@ -75,7 +76,7 @@ prop('C13',
      explanation='FiniteField: new/value/negate/one/zero/add/mul/sub verbatim against integer arithmetic modulo P (generic P with 2(P-1) <= u128::MAX, discharged for each exported prime by compute); '
                  'ring laws are lemmas over the operator specifications.  Truncated polynomials (unit poly): zero, one, + and * against their definitions, generic in the coefficient semiring.  Boolean semiring and the real / expected-utility lattice operations: loop-free Kani harnesses over the whole bit domain.',
      not_covered=[
-         'RationalSemiring (external crate `rational`)',
+         'RationalSemiring (external crate `rational`; its field is private, so only values built from one()/zero() are reachable) [bounded check `lattice` only: naturals 0..4]',
          'the semiring LAWS of truncated polynomials: unit poly proves that zero / one / + / * compute the definition (coefficient-wise sum; truncated convolution in the order the code adds the terms) for any coefficient semiring, not that this definition is associative / distributive (that needs the laws of the coefficient type)',
          'real +,* beyond integers |x| <= 8 and expected-utility / complex +,* beyond integers |x| <= 4 (domain-bounded Kani harnesses, labelled as such; floating-point addition is not associative in general); the multiplication associativity / distributivity harnesses of the latter two run in the thorough tier only (50-100 s)',
      ])
@@ -118,8 +119,8 @@ prop('C15',
                  'by nested loop invariants over the real loops; PartialModel get/set/unset/is_set/lit_implied/lit_neg_implied and VarSet insert/remove/contains against a set view, with the frame '
                  '(other variables unchanged) and the invariant that no variable is in both sets; Literal bit packing by Kani over all u64 x bool',
      not_covered=[
-         'Cnf::new (iterator chains, sort_by_key, dedup)', 'Cnf::condition and CnfHasher (labelled continue inside for; HashSet): the residual-formula hasher clause of the property is NOT decided',
-         'AssignmentIter::next (fold closure) and Cnf::wmc (brute-force counting)',
+         'Cnf::new (iterator chains, sort_by_key, dedup) [bounded check `cnf` only]', 'Cnf::condition (labelled continue inside for) [bounded check `cnf` only]', 'CnfHasher (HashSet; primes): the residual-formula hasher clause of the property is NOT decided, not even boundedly',
+         'AssignmentIter::next (fold closure) and Cnf::wmc (brute-force counting) [bounded check `cnf` only; it found the empty-formula defect fixed in 18754bc]',
          'VarSet union/minus/intersect (BitSet iterator adapters)',
      ])
 
@@ -133,9 +134,9 @@ prop('C14',
                  'get(order[i]) == i; new_last (run-time extension) preserves wf, keeps every old position and appends the new label; get / var_at_level / lt / lte / first / first_essential / sort / above / below are proved against the maps.  '
                  'dtree helpers (unit dtree): init_vars establishes vars = vars(l) U vars(r) at every node and the clause variables at every leaf; gen_cutset establishes cutset = (vars(l) /\\ vars(r)) minus the ancestors\' cutsets at every node (leaf: remaining variables) and changes nothing else; balanced keeps exactly the leaves of its input trees, in order',
      not_covered=[
-         'VarOrder::linear_order ((0..n).map(..).collect(): iterator chain; it only calls VarOrder::new, which is proved)',
-         'min-fill (petgraph) and FORCE (f64, sort_by, partial_cmp) order heuristics',
-         'DTree::from_cnf itself (iterator map/collect/partition around the proved helpers), cutwidth', 'VTree::from_dtree (cutset.iter().collect()), VTreeManager (in-order indices, lca via segment tree, prime test, variable count)',
+         'VarOrder::linear_order ((0..n).map(..).collect(): iterator chain; it only calls VarOrder::new, which is proved) [+ bounded check `order`]',
+         'min-fill (petgraph) and FORCE (f64, sort_by, partial_cmp) order heuristics [bounded check `order` only: the result is a bijection]',
+         'DTree::from_cnf itself (iterator map/collect/partition around the proved helpers) [bounded check `dtree` only], cutwidth', 'VTree::from_dtree (cutset.iter().collect()) [bounded check `dtree` only], VTreeManager (in-order indices, lca via segment tree, prime test, variable count)',
      ])
 
 prop('C05',
@@ -145,9 +146,9 @@ prop('C05',
      explanation='compile_logical_expr(e) and compile_plan(p) (trait default methods, generic in the pointer type) denote expr_sem(e) / plan_sem(p), the structural meaning of the enum; '
                  'collapse_clauses denotes the conjunction of its slice and is None exactly for the empty slice; for the BDD builder the operations they call are the ones proved under C01 (same units), for any variable order',
      not_covered=[
-         'compile_cnf: clause-sorting prologue (sort_by with closures over max_by), the per-clause loop and the empty-clause test use iterator adapters Verus rejects; its last step collapse_clauses is proved',
-         'compile_cnf_with_assignments (BinaryHeap, count_nodes on scratch)', 'BottomUpPlan::from_dtree (iter().skip(1).fold)',
-         'everything SDD (C03): compile_* under the SDD builder and any vtree',
+         'compile_cnf: clause-sorting prologue (sort_by with closures over max_by), the per-clause loop and the empty-clause test use iterator adapters Verus rejects; its last step collapse_clauses is proved [bounded check `compile` only]',
+         'compile_cnf_with_assignments (BinaryHeap, count_nodes on scratch) [bounded check `compile` only: equal pointer to compile-then-condition_model]', 'BottomUpPlan::from_dtree (iter().skip(1).fold) [bounded check `compile` only]',
+         'everything SDD (C03 is not applicable): compile_* under the SDD builder and any vtree [bounded check `compile` only: all vtrees over 3 variables, four over 4]',
      ])
 
 prop('C02',
